@@ -521,7 +521,11 @@ fn run_set(d: &dyn Driver, ctx: &Ctx, idx: u64, seed: u64) -> CaseOut {
         }
 
         // short first windows (not on the minimal witness sets: they exist for one shape only)
-        let windows = if out.witness.is_some() { Vec::new() } else { windows(seed ^ f as u64, ctx.quick()) };
+        let mut windows = if out.witness.is_some() { Vec::new() } else { windows(seed ^ f as u64, ctx.quick()) };
+        if d.class().starts_with("scale-") {
+            // the scale sets are about size, not about windows: three scripts are enough
+            windows.retain(|w| matches!(w.0, "first-1" | "first-30" | "every-read-4096"));
+        }
         for (label, sizes) in windows {
             let w0 = first_delivery(&bytes, &sizes);
             out.o.evaluations += 1;
@@ -679,6 +683,14 @@ fn run_set(d: &dyn Driver, ctx: &Ctx, idx: u64, seed: u64) -> CaseOut {
         let _ = std::fs::remove_file(&path);
     }
     let _ = std::fs::remove_dir_all(&dir);
+    if d.class().starts_with("scale-") {
+        out.o.count(&format!("scale_sets[{side}/{}]", d.class()), 1);
+        if src_ok.iter().all(|&x| x) {
+            out.o.count(&format!("scale_sets_read_back_in_every_format[{side}/{}]", d.class()), 1);
+        }
+        out.o.max(&format!("max_scale_records[{side}]"), exp.lines.len() as u64);
+        out.o.max(&format!("max_scale_record_bytes[{side}]"), exp.lines.iter().map(|l| l.len()).max().unwrap_or(0) as u64);
+    }
     out.o
 }
 
@@ -705,6 +717,13 @@ fn gen_cases(ctx: &Ctx) -> Vec<Case> {
     }
     for (i, c) in var::DET_CLASSES.iter().enumerate() {
         cases.push(Case { side: "variant", class: c.to_string(), seed: ctx.seed.wrapping_mul(1000) + i as u64 });
+    }
+    // the scale family: large dictionaries, single records larger than a BGZF block, more records than a CRAM container holds
+    for (i, c) in aln::SCALE_QUICK.iter().chain(if ctx.quick() { [].iter() } else { aln::SCALE_THOROUGH.iter() }).enumerate() {
+        cases.push(Case { side: "alignment", class: c.to_string(), seed: ctx.seed.wrapping_mul(1000) + 700 + i as u64 });
+    }
+    for (i, c) in var::SCALE_QUICK.iter().chain(if ctx.quick() { [].iter() } else { var::SCALE_THOROUGH.iter() }).enumerate() {
+        cases.push(Case { side: "variant", class: c.to_string(), seed: ctx.seed.wrapping_mul(1000) + 700 + i as u64 });
     }
     // two more multi-block sets per side (three with the one above): the only sets in which values straddle
     // BGZF block boundaries, which is where a short write of a *.gz / BGZF target loses bytes
@@ -883,6 +902,12 @@ fn main() {
         }
         rep.floor("record_variant_observations", c("record_variant_observations"), 50);
         rep.floor("path_runs", c("path_runs"), 300);
+        for cl in aln::SCALE_QUICK.iter().chain(if ctx.quick() { [].iter() } else { aln::SCALE_THOROUGH.iter() }) {
+            rep.floor(&format!("scale_sets_read_back_in_every_format[alignment/{cl}]"), c(&format!("scale_sets_read_back_in_every_format[alignment/{cl}]")), 1);
+        }
+        for cl in var::SCALE_QUICK.iter().chain(if ctx.quick() { [].iter() } else { var::SCALE_THOROUGH.iter() }) {
+            rep.floor(&format!("scale_sets_read_back_in_every_format[variant/{cl}]"), c(&format!("scale_sets_read_back_in_every_format[variant/{cl}]")), 1);
+        }
         for (rel, _) in aln::PATH_CASES {
             rep.floor(&format!("path_names[alignment/{rel}]"), c(&format!("path_names[alignment/{rel}]")), 5);
         }
